@@ -478,6 +478,11 @@ def h_solution_cost(env):
         if ext:
             dcop.external_variables = {"e": ext}
         dcop._constraints = {c.name: c for c in cons}
+        if ext is not None and missing is None and env.choice("stale_entry_for_the_external_variable", [False, True]):
+            # the caller's dict still carries an old reading of the external variable: its CURRENT value is what counts
+            given = dict(given)
+            given["e"] = 1 - ext.value
+            env.cover("stale-external-entry")
         given_before = dict(given)
         r = env.call(dcop.solution_cost, given, infinity)
         env.prove("solution_cost.frame.assignment-unchanged", list(given.items()) == list(given_before.items()), detail=lambda: (given, given_before))
